@@ -411,7 +411,7 @@ def run(ctx):
                 lp[1][2] == T.call("range", (T.sub(T.call("len", (be,)), T.num(1)),))
             arr_term = lp[0][2]
     rm = [e for e in sg.events if e.kind == "call" and isinstance(e.fname, tuple) and e.fname[1] == "append" and e.loops()
-          and any(c[0] == "not" and c[1][0] == "in" and c[1][2][0] == "call" and c[1][2][1] == "list" for c in e.conds())]
+          and any(c[0] == "not" and c[1][0] == "in" and c[1][2][0] == "call" and c[1][2][1] in ("list", "set", "tuple", "frozenset") for c in e.conds())]
     ok_rm = False
     for e in rm:
         for c in e.conds():
